@@ -48,6 +48,9 @@ def fmapStep (s : FMap.St) (ws : List String) : FMap.St × String :=
       | some s' =>
         let en := joinWith "," ((FMap.enabledTids s').map fmTid)
         (s', s!"{fmTid t} {fmDescribe s t} # {fmDigest s'} # en:{en}"))
+  | ["explore", w] => match w.toNat? with
+    | some limit => (s, exploreGraph FMap.step FMap.allTids (fun x => toString (repr x)) fmTid s limit)
+    | none => (s, "bad-op")
   | ["enabled"] => (s, "en:" ++ joinWith "," ((FMap.enabledTids s).map fmTid))
   | ["final"] =>
     (s, "out:" ++ joinWith "," (s.out.map (fun p => s!"{p.1}:{p.2}")) ++ s!" final:{if s.ppc == .done then 1 else 0}" ++
